@@ -277,6 +277,12 @@ class Env:
             if v is not None and (str(t.get('t', '')).endswith('&') or str(t.get('t', '')).endswith('*') or k == 'param'):
                 return v
             return t
+        if k == 'un' and t.get('op') in ('++', '--', '++post', '--post') and isinstance(t.get('e'), dict):
+            # the increment itself was already executed as an event of its own: as a sub-expression it only has a value
+            v = self.subst(t['e'])
+            if t['op'] in ('++', '--'):
+                return v
+            return {'k': 'bin', 'op': '-' if t['op'] == '++post' else '+', 'l': v, 'r': {'k': 'lit', 'v': 1}}
         if k == 'this' and '__this__' in self.vals:
             return {'k': 'un', 'op': '&', 'e': self.vals['__this__']}
         if k == 'member':
@@ -322,6 +328,12 @@ class Env:
             if v is not None:
                 return v
             return t
+        if k == 'un' and t.get('op') in ('++', '--', '++post', '--post') and isinstance(t.get('e'), dict):
+            # the increment itself was already executed as an event of its own: as a sub-expression it only has a value
+            v = self.subst(t['e'])
+            if t['op'] in ('++', '--'):
+                return v
+            return {'k': 'bin', 'op': '-' if t['op'] == '++post' else '+', 'l': v, 'r': {'k': 'lit', 'v': 1}}
         if k == 'this' and '__this__' in self.vals:
             r = self.vals['__this__']
             # `this` is a pointer, the receiver term is the object
